@@ -167,8 +167,7 @@ class NuWiki:
                 self.revisions[meta["revid"]] = new_page
 
         tmp = list(self.revisions.items())
-        python2sort(tmp, reverse=True)
-        for revid, page in tmp:
+        for revid, page in python2sort(tmp, reverse=True):
             title = page.title
             if title not in self.revisions:
                 self.revisions[title] = page
